@@ -65,7 +65,7 @@ class Case:
     def smt_logic(s):
         if s.logic: return s.logic
         uf = getattr(s, 'uses_uf', False)
-        if s.dom == 'uf': return 'QF_UFBV'
+        if s.dom == 'uf' or getattr(s, 'uf_int', False): return 'QF_UFBV'
         if s.dom == 'real': return 'QF_UFNRA' if uf else 'QF_NRA'
         hasf = any(a.kind == 'f' for a in s.args)
         if hasf: return None if uf else 'QF_BVFP'
@@ -132,7 +132,7 @@ class Case:
         while work:
             dec = work.pop()
             dom = dom_factory()
-            it = Interp(mod, dom, decisions=dec, pc=base_pc, stats=stats); it.name_ite = getattr(s, 'name_ite', False)
+            it = Interp(mod, dom, decisions=dec, pc=base_pc, stats=stats); it.name_ite = getattr(s, 'name_ite', False); it.uf_int = getattr(s, 'uf_int', False)
             args, bufs = s.make_args(it, dom)
             status = 'ok'; ret = None; info = ''
             try:
